@@ -204,14 +204,32 @@ func (w *World) swapCheck(b *commit.Buffer, k Kind, issued []FOp, rng *Rng) *Vio
 		r := commit.NewReader()
 		i := 0
 		blockOps := opsOfBlock(issued, blk)
+		var appended []FOp // the puts this pass appended for its length-changing swaps, in order
+		nextApp := 0
+		var extra *Violation
 		r.Range(b, commit.Chunk(blk), func(r *commit.Reader) {
 			for r.Next() {
 				if i >= len(blockOps) {
+					// beyond the issued operations the pass may only meet the puts that its own
+					// length-changing swaps appended (when the buffer ends in a run of this block they
+					// are applied once more, harmlessly); anything else is not an operation of this block
 					i++
+					ok := false
+					if nextApp < len(appended) {
+						a := appended[nextApp]
+						ok = r.Type == commit.Put && r.Index() == a.Off && string(r.Bytes()) == string(a.Val)
+						nextApp++
+					}
+					if !ok && extra == nil {
+						extra = violation("codec/swap-pass-extra", "buffer %q block %d: the pass that replaces merges by their results was handed {%s @%d %x} after the block's %d operations", b.Column, blk, r.Type, r.Index(), clipB(r.Bytes()), len(blockOps))
+					}
 					continue
 				}
 				o := blockOps[i]
 				i++
+				if r.Index() != o.Off && extra == nil {
+					extra = violation("codec/swap-pass-offset", "buffer %q block %d: operation #%d was written at offset %d, the pass that replaces merges reads it at %d", b.Column, blk, i-1, o.Off, r.Index())
+				}
 				if r.Type != commit.Merge {
 					want[o.Off] = append(want[o.Off], o)
 					continue
@@ -269,11 +287,18 @@ func (w *World) swapCheck(b *commit.Buffer, k Kind, issued []FOp, rng *Rng) *Vio
 					r.SwapBytes(res)
 					if n != len(o.Val) {
 						w.stats.probe("length-changing-swap")
+						appended = append(appended, FOp{Type: commit.Put, Off: o.Off, Val: res})
 					}
 				}
 				want[o.Off] = append(want[o.Off], FOp{Type: commit.Put, Off: o.Off, Val: res})
 			}
 		})
+		if extra != nil {
+			return extra
+		}
+		if i < len(blockOps) {
+			return violation("codec/swap-pass-short", "buffer %q block %d: the pass that replaces merges saw %d of the block's %d operations", b.Column, blk, i, len(blockOps))
+		}
 		got := map[uint32][]FOp{}
 		for _, o := range decodeBlock(b, blk) {
 			if o.Type == commit.Skip {
